@@ -624,6 +624,16 @@ def traceback_case(seed: int, idx: int, tier: str):
                     "word_wrap": rng.random() < 0.25, "indent_guides": rng.random() < 0.7,
                     "theme": rng.choice([None, "monokai", "ansi_light"])}
         paths = [os.path.join(tmp, "mod_a.py")] + ([os.path.join(tmp, "mod_b.py")] if two else [])
+        # one case in five: the code objects carry file names RELATIVE to the directory the process was in when rich
+        # was imported (runpy.run_path("plugins/x.py"), exec(compile(src, "hooks.py", "exec")), relative sys.path
+        # entries) and the process has changed directory by the time the traceback is rendered
+        import rich as _rich
+
+        relative = idx >= len(sysp) and random.Random(f"c17rel:{seed}:{idx}").random() < 0.2
+        anchor = getattr(_rich, "_IMPORT_CWD", os.getcwd())
+
+        def cname(path):
+            return os.path.relpath(path, anchor) if relative else path
         runner_path = os.path.join(tmp, "runner.py")
         with open(runner_path, "w", encoding="utf-8") as fh:
             fh.write(_RUNNER)
@@ -638,29 +648,41 @@ def traceback_case(seed: int, idx: int, tier: str):
                 fh.write(src_b)
             # module b is executed once (its own final call raises and is swallowed); a then calls b's functions
             ns_b = {"__name__": "mod_b"}
-            run_module(compile(src_b, paths[1], "exec"), ns_b)
+            run_module(compile(src_b, cname(paths[1]), "exec"), ns_b)
         src_a = gen_module(pa, "mod_a.py", callee_name="callee" if two else None)
         with open(paths[0], "w", encoding="utf-8") as fh:
             fh.write(src_a)
         ns_a = {"__name__": "mod_a"}
         if two:
             ns_a["callee"] = ns_b["middle"]
-        exc_info = run_module(compile(src_a, paths[0], "exec"), ns_a)
+        exc_info = run_module(compile(src_a, cname(paths[0]), "exec"), ns_a)
         if exc_info is None:
             return [("c17.traceback_line", "generated module did not raise (generator bug)", None, None)], counts, key, 0, None
-        frames = [(f.f_code.co_filename, lineno, f.f_code.co_name) for f, lineno in pytb.walk_tb(exc_info[2])]
+        def resolve(fn):
+            return fn if (fn.startswith("<") or os.path.isabs(fn)) else os.path.normpath(os.path.join(anchor, fn))
+
+        frames = [(resolve(f.f_code.co_filename), lineno, f.f_code.co_name) for f, lineno in pytb.walk_tb(exc_info[2])]
         okey = ",".join(f"{k}={v}" for k, v in opts.items() if v != {"width": 100, "extra_lines": 3, "word_wrap": False,
                                                                      "indent_guides": True, "theme": None}[k])
-        key = f"tb[a:{params_key(pa)}" + (f";b:{params_key(pb)}" if two else "") + "]" + (f"|{okey}" if okey else "")
+        key = f"tb[a:{params_key(pa)}" + (f";b:{params_key(pb)}" if two else "") + "]" + (f"|{okey}" if okey else "") + ("|relative-names+chdir" if relative else "")
         replay = {"traceback_case": idx, "seed": seed, "tier": tier, "module_a": pa, "module_b": pb, "traceback_options": opts,
-                  "source_a": src_a if len(src_a) < 600 else src_a[:200] + f"... ({src_a.count(chr(10)) + 1} lines)"}
+                  "source_a": src_a if len(src_a) < 600 else src_a[:200] + f"... ({src_a.count(chr(10)) + 1} lines)",
+                  "relative_file_names_then_chdir": relative}
+        elsewhere = os.path.join(tmp, "elsewhere")
+        os.makedirs(elsewhere, exist_ok=True)
+        cwd0 = os.getcwd()
         W = 200
         outs = {}
         for cs in (None, "truecolor"):
             console = Console(width=W, file=io.StringIO(), color_system=cs, legacy_windows=False, _environ={})
             try:
-                tb = Traceback.from_exception(*exc_info, **opts)
-                console.print(tb)
+                if relative:
+                    os.chdir(elsewhere)
+                try:
+                    tb = Traceback.from_exception(*exc_info, **opts)
+                    console.print(tb)
+                finally:
+                    os.chdir(cwd0)
                 outs[cs] = _SGR.sub("", console.file.getvalue())
             except BaseException as e:
                 counts["c17.traceback_line"] += 1
@@ -684,6 +706,11 @@ def traceback_case(seed: int, idx: int, tier: str):
                 continue
             if parsed and r.startswith("❱"):
                 parsed[-1][1].append(r)
+        if relative:
+            # the header may spell the path differently (not normalised); the frame is identified by line and name and
+            # the file is the one the relative name denoted when the code was loaded
+            if [p[0][1:] for p in parsed] == [f[1:] for f in frames]:
+                parsed = [[fr, rows] for fr, (_h, rows) in zip(frames, parsed)]
         if [p[0] for p in parsed] != frames:
             fails.append(("c17.traceback_line", "frame headers of the rendered traceback differ from the Python traceback",
                           [f"{f}:{l} in {n}" for f, l, n in frames], [f"{f}:{l} in {n}" for (f, l, n), _ in parsed]))
@@ -721,6 +748,7 @@ def traceback_case(seed: int, idx: int, tier: str):
                 os.remove(_p)
             except OSError:
                 pass
+        shutil.rmtree(tmp, ignore_errors=True)  # nothing is left behind in the temporary directory
 
 
 # ------------------------------------------------------------------------------------------------ pool work
